@@ -70,9 +70,9 @@ def gen_cases(r, scale):
                       + [2 ** k + d for k in range(6, 50) for d in (-1, 0, 1)] + [64 * m for m in range(1, 200)]))
     for i in range(0, len(grid), 40):
         cases.append('X 0 | ' + ' | '.join('SEG %d' % n for n in grid[i:i + 40]))
-    for _ in range(60 * scale): cases.append(gen_case(r, 'small'))
-    for _ in range(14 * scale): cases.append(gen_case(r, 'mid'))
-    for _ in range(8 * scale): cases.append(gen_case(r, 'big'))
+    for _ in range(200 * scale): cases.append(gen_case(r, 'small'))
+    for _ in range(50 * scale): cases.append(gen_case(r, 'mid'))
+    for _ in range(24 * scale): cases.append(gen_case(r, 'big'))
     return cases
 
 
